@@ -42,6 +42,7 @@ class C16(core.Check):
             'longer than 6 and 16 bytes, predefined data, included files) under address widths 4..32, each assembled to the '
             'image and to the four formats (one real CLI run per format); every decoded address->byte map must equal the model '
             'map; listing rows checked per statement. distinct_nontrivial = distinct (format, feature set) tuples.')
+    rule = rule + ' ' + 'Single statements of 41..3000 bytes (lists, fills, zero runs, strings) are listed at three origins.'
     assumptions = ('compact hex: without an address row the data continues contiguously, starting at the ISA origin',
                    'a muted statement may be shown by the listing, but without bytes')
     chunk = 1200
@@ -49,7 +50,8 @@ class C16(core.Check):
                                        'included-file', 'predefined-data', 'width:4', 'width:8', 'width:12', 'width:16',
                                        'width:24', 'width:32', 'every-line-length-1..40', 'fmt:listing', 'fmt:hex', 'fmt:intel_hex', 'fmt:minhex',
                                        'image-fill:nonzero', 'width:not-a-multiple-of-4', 'zero-length-at-gap-edge', 'gap:align', 'gap:memzone', 'gap:muted', 'gap:zone-org',
-                                       'statement-longer-than-96-bytes', 'long-statement:fill', 'long-statement:cstr']}
+                                       'statement-longer-than-96-bytes', 'long-statement:fill', 'long-statement:cstr',
+                                       'stale-longer-output-present']}
     required_buckets['every-line-length-1..40'] = 2
     required_buckets['several-statements-per-line'] = 3
 
@@ -83,6 +85,11 @@ class C16(core.Check):
         if fillv:
             argv_extra = list(argv_extra) + ['-f', str(fillv)]
             tags.add('image-fill:nonzero')
+        if self._n % 4 == 1:
+            # an older, longer output of an earlier run is already there: the new output replaces it completely
+            fl = dict(fl)
+            fl['pp.txt'] = ('9999 | ff ff ff ff ff ff | stale row of an earlier run\n:10FFF000FFFFFFFFFFFFFFFFFFFFFFFFFFFFFFFF11\n' * 400)
+            tags.add('stale-longer-output-present')
         for f in FORMATS:
             runs.append({'files': fl, 'argv': ['compile', '-c', fn, main_name, '-o', 'out.bin', '-p', '-t', f,
                                                '--pretty-print-output', 'pp.txt'] + argv_extra,
